@@ -557,13 +557,35 @@ class ConstEval:
 
     def e_Call(self, e):
         f = e.func
+        if isinstance(f, ast.Name) and f.id == "map" and "map" not in self.env and len(e.args) == 2 and not e.keywords:
+            # map(fn, xs) over foldable data with a foldable function: re.escape, a safe builtin, a pure module function
+            out = []
+            for x in list(self.eval(e.args[1])):
+                call = ast.Call(func=e.args[0], args=[ast.Constant(value=x)], keywords=[])
+                ast.copy_location(call, e)
+                ast.fix_missing_locations(call)
+                out.append(self.eval(call))
+            return out
         args = self._elts(e.args)
         kwargs = {k.arg: self.eval(k.value) for k in e.keywords if k.arg}
         if isinstance(f, ast.Name):
             if f.id in self.env and isinstance(self.env[f.id], EnumClass):
                 raise Unfoldable("enum call")
-            if f.id == "map":
+            if f.id == "map" and "map" not in self.env:
+                # map(fn, xs) over foldable data with a foldable function: re.escape, a safe builtin, a pure module function
+                if len(e.args) == 2:
+                    fn_e = e.args[0]
+                    xs = list(self.eval(e.args[1]))
+                    out = []
+                    for x in xs:
+                        call = ast.Call(func=fn_e, args=[ast.Constant(value=x)], keywords=[])
+                        ast.copy_location(call, e)
+                        ast.fix_missing_locations(call)
+                        out.append(self.eval(call))
+                    return out
                 raise Unfoldable("map")
+            if f.id in self.env and isinstance(self.env[f.id], FuncRef) and self.env[f.id].mod == self.modname:
+                return self._call_pure(self.env[f.id], args, kwargs)
             if f.id in _SAFE_BUILTINS and f.id not in self.env:
                 try:
                     return _SAFE_BUILTINS[f.id](*args, **kwargs)
@@ -593,6 +615,77 @@ class ConstEval:
                     raise Unfoldable(str(ex))
             raise Unfoldable("method " + f.attr)
         raise Unfoldable("call")
+
+    _depth = 0
+
+    def _call_pure(self, ref: "FuncRef", args: list, kwargs: dict):
+        """Fold a call of a module-level function that only builds data: its body may assign locals, branch on foldable tests,
+        store into its own dict/list locals and return.  Anything else (loops over unknowns, calls of unfoldable things,
+        global state) is Unfoldable.  This is how `TABLE = {"a": _entry(("x",), no_end=True), ...}` is read."""
+        m = self.index.modules[ref.mod]
+        fn = m.funcs.get(ref.name)
+        if fn is None or fn.decorator_list or ConstEval._depth > 6:
+            raise Unfoldable("call " + ref.name)
+        a = fn.args
+        if a.vararg or a.kwarg or a.posonlyargs:
+            raise Unfoldable("signature of " + ref.name)
+        params = [x.arg for x in a.args]
+        local = dict(self.env)
+        defaults = dict(zip(params[len(params) - len(a.defaults):], a.defaults))
+        for kw, d in zip(a.kwonlyargs, a.kw_defaults):
+            if d is not None:
+                defaults[kw.arg] = d
+        bound = dict(zip(params, args))
+        bound.update(kwargs)
+        for p_ in params + [x.arg for x in a.kwonlyargs]:
+            if p_ not in bound:
+                if p_ not in defaults:
+                    raise Unfoldable("missing argument " + p_)
+                bound[p_] = self.eval(defaults[p_])
+        local.update(bound)
+        sub = ConstEval(self.index, self.modname, local)
+
+        class _Ret(Exception):
+            def __init__(self, v):
+                self.v = v
+
+        def run(stmts):
+            for st in stmts:
+                if isinstance(st, ast.Expr) and isinstance(st.value, ast.Constant):
+                    continue
+                if isinstance(st, ast.Return):
+                    raise _Ret(sub.eval(st.value) if st.value is not None else None)
+                if isinstance(st, (ast.Assign, ast.AnnAssign)):
+                    if isinstance(st, ast.AnnAssign) and st.value is None:
+                        continue
+                    v = sub.eval(st.value)
+                    for t in (st.targets if isinstance(st, ast.Assign) else [st.target]):
+                        sub._assign(t, v)
+                    continue
+                if isinstance(st, ast.If):
+                    run(st.body if sub.eval(st.test) else st.orelse)
+                    continue
+                if isinstance(st, ast.For):
+                    for x in list(sub.eval(st.iter)):
+                        sub._assign(st.target, x)
+                        run(st.body)
+                    continue
+                if isinstance(st, ast.Expr) and isinstance(st.value, ast.Call) and isinstance(st.value.func, ast.Attribute) \
+                        and st.value.func.attr in ("append", "extend", "update", "add", "setdefault") and isinstance(st.value.func.value, ast.Name):
+                    obj = sub.eval(st.value.func.value)
+                    if isinstance(obj, (list, dict, set)) and st.value.func.value.id in bound or st.value.func.value.id in local and st.value.func.value.id not in self.env:
+                        getattr(obj, st.value.func.attr)(*[sub.eval(x) for x in st.value.args])
+                        continue
+                raise Unfoldable("statement in " + ref.name)
+
+        ConstEval._depth += 1
+        try:
+            run(fn.body)
+        except _Ret as r:
+            return r.v
+        finally:
+            ConstEval._depth -= 1
+        return None
 
     def _comp(self, gens, emit):
         def rec(i):
